@@ -163,8 +163,12 @@ def facts(config="release", overrides=None, optlevel=0, extra_sources=None):
     work = os.path.join(scratch(), tag)
     inc = os.path.join(work, "inc")
     os.makedirs(inc, exist_ok=True)
-    vals = gen_headers(inc, overrides)
-    flags = BASE_FLAGS + CONFIG_FLAGS[config]
+    # a pseudo-option: plain `char` is unsigned (the ABI of ARM, AArch64, PowerPC and RISC-V Linux) - code that keeps a signed
+    # quantity in a plain char is right on x86 only
+    ov_ = dict(overrides or {})
+    extra_flags = ["-funsigned-char"] if ov_.pop("CHAR_UNSIGNED", None) else []
+    vals = gen_headers(inc, ov_)
+    flags = BASE_FLAGS + CONFIG_FLAGS[config] + extra_flags
     incdirs = [os.path.join(REPO, "src"), inc]
     jobs = []
     for u in units:
